@@ -316,6 +316,10 @@ package sqlx
 //@   opaque unwrapFields, Deref
 //@   loop 1 entry [starts-at-zero] i == 0
 //@   loop 1 invariant 0 <= i
+// a nil pointer field is allocated only when reflection may set it (an unexported one - time.Time's loc - may
+// not: Set would panic; it is left as it is and reported unreadable by the mapping step)
+//@   replay sqlx_unsettable
+//@   loop 1 iteration-ensures [allocates-only-settable-pointers] calls(Set) >= 1 ==> calls(CanSet) == 1 && ret(CanSet) && calls(Set) == 1
 //@   loop 1 iteration-ensures [field-i-in-order] calls(indirect.Field, at_head(i)) == 1 && i == at_head(i) + 1 && (calls(unwrapFields) == 0 ==> len(fields) == at_head(len(fields)) + 1) && (calls(unwrapFields) == 1 ==> len(fields) == at_head(len(fields)) + len(ret(unwrapFields)))
 //@   loop 1 iteration-ensures [embedded-structs-flattened-in-place] calls(unwrapFields) == 1 ==> ret(Field, 0, 2).Anonymous && calls(unwrapFields) <= 1
 
